@@ -1,8 +1,8 @@
 #!/bin/bash
-# tools/try_seed2.sh <id> : apply /tmp/seeded2/<id>/patch.diff to a scratch copy of /repo/src and run the property's check on it
+# tools/try_seed2.sh <id> : (ROUND=2|3) apply /tmp/seeded<ROUND>/<id>/patch.diff to a scratch copy of /repo/src and run the check
 id=$1
 D=$(mktemp -d /tmp/pyvc_seed.XXXX)
 cp -r /repo/src $D/src
-if ! patch -s -p1 -d $D < /tmp/seeded2/$id/patch.diff >/dev/null 2>&1; then echo "$id PATCH-DOES-NOT-APPLY"; rm -rf $D; exit 1; fi
+if ! patch -s -p1 -d $D < /tmp/seeded${ROUND:-2}/$id/patch.diff >/dev/null 2>&1; then echo "$id PATCH-DOES-NOT-APPLY"; rm -rf $D; exit 1; fi
 cd /verif && ./check $id --src $D/src --no-evidence 2>&1 | grep -E "VIOLATION|obligation:|UNDECIDED|CHECKER|exit=" | cut -c1-260
 rm -rf $D
